@@ -383,6 +383,33 @@ pub fn oracle_cli_quit(scn: &E3Scn, d: &D3, out: &RunOut, stats: &mut Stats) -> 
             vs.push(Violation::new("quit-no-kill-at-stop-timeout", "cli", format!("child {k} still alive after t={deadline} (stop timeout {timeout} ms after the quit at t={q})")));
         }
     }
+    // the command is spawned with the wrappers the options ask for, and after the quit no member of a grouped command's
+    // process group is left (a leader that ended by itself leaves its orphans beyond the supervisor's reach)
+    let (want_group, want_session) = scn.expected_wrappers();
+    for r in &out.hist {
+        match &r.ev {
+            Ev::Spawn { child, group, session, kill_on_drop, .. } => {
+                if (*group, *session) != (want_group, want_session) || !*kill_on_drop {
+                    vs.push(Violation::new(
+                        "wrong-process-wrappers",
+                        "cli",
+                        format!("--wrap-process {:?}: child {child} spawned with group={group} session={session} kill_on_drop={kill_on_drop}", scn.wrap),
+                    ));
+                }
+            }
+            Ev::Note { what: "group-members-alive", a, b } => {
+                stats.hit("probe:cli-grouped-command-with-grandchildren");
+                let c = &d.children[*a as usize];
+                let alive_at_q = c.spawn_t <= q && c.exit.map(|e| e.0 > q).unwrap_or(true);
+                let natural = c.exit.map(|e| e.1 < 1000).unwrap_or(false);
+                if *b > 0 && alive_at_q && !natural {
+                    vs.push(Violation::new("group-members-survive-graceful-quit", "cli", format!("{b} other member(s) of child {a}'s process group were still alive after the quit")));
+                }
+            }
+            Ev::Note { what: "ungrouped-members-alive", .. } => stats.hit("probe:cli-ungrouped-command-with-grandchildren"),
+            _ => {}
+        }
+    }
     // nothing survives
     let mut dead = std::collections::BTreeSet::new();
     let mut all = Vec::new();
@@ -471,7 +498,27 @@ pub fn gen_cli(rng: &mut Rng) -> E3Scn {
         steps,
         final_signal: *rng.pick(&[2, 15]),
         map_signals: vec![],
+        wrap: None,
     }
+}
+
+/// the command forks: other members of its process group, under each `--wrap-process` mode
+pub fn gen_cli_grouped(rng: &mut Rng) -> E3Scn {
+    let mut s = gen_cli(rng);
+    s.family = "cli-grouped".into();
+    s.wrap = match rng.below(6) {
+        0 | 1 => None,
+        2 => Some("group".into()),
+        3 => Some("session".into()),
+        4 => Some("none".into()),
+        _ => Some("legacy-none".into()),
+    };
+    for c in s.children.iter_mut() {
+        if rng.chance(2, 3) {
+            c.grandchildren = rng.range(1, 2) as u8;
+        }
+    }
+    s
 }
 
 /// `--map-signal`: one of interrupt / terminate is mapped (passed on as another signal, as itself, or discarded) and
